@@ -9,7 +9,25 @@ UNIT = 'instantiate'
 D = 'squids::detail::'
 CSUV = 'const squids::SU_vector &'
 
-WRAPPERS = ('AssignWrapper', 'IncrementWrapper', 'DecrementWrapper')
+WRAPPERS = ('AssignWrapper', 'IncrementWrapper', 'DecrementWrapper')  # roles: what `+=` on the target means
+_wq = {}
+
+
+def wrapper_type(db, role):
+    """the fully qualified type that plays the role today (an alias or a merged template is seen through): read off the
+    name of the driver's explicit instantiation probe_<role><W>"""
+    key = (id(db), role)
+    if key not in _wq:
+        pre = 'sqv_driver::probe_%s<' % role
+        fs = [f for f in db.unit(UNIT).functions if f['name'].startswith(pre)]
+        if len(fs) != 1 or not fs[0].get('targs'):
+            raise AnalysisBroken('wrapper probe for %s not found in the driver unit' % role)
+        _wq[key] = fs[0]['targs'][0]
+    return _wq[key]
+
+
+def assign_proxy_fn(db, role, pcls):
+    return db.one(UNIT, 'squids::SU_vector::assignProxy<%s, %s>' % (wrapper_type(db, role), pcls))
 
 # operation -> (proxy class, entry point name, entry predicate, arity of vectors)
 OPS = {
@@ -54,7 +72,7 @@ def entry(db, op):
 
 def compute_fn(db, op, wrapper, aligned):
     cls = OPS[op][0]
-    name = '%s::compute<squids::detail::vector_wrapper<squids::detail::%s>, %s>' % (cls, wrapper, 'true' if aligned else 'false')
+    name = '%s::compute<squids::detail::vector_wrapper<%s>, %s>' % (cls, wrapper_type(db, wrapper), 'true' if aligned else 'false')
     return db.one(UNIT, name)
 
 
@@ -91,7 +109,7 @@ def run_compute(db, op, proxy, d, wrapper='AssignWrapper', aligned=False, hooks=
     if target is None:
         target = Region('target', d * d, lambda k: Poly.var('T%d' % k), 'heap')
     hooks.track_reads_of = target
-    tw = target_wrapper(unit, d, target, wrapper)
+    tw = target_wrapper(unit, d, target, wrapper_type(db, wrapper))
     it = Interp(unit, hooks)
     it.call(f, Cell(proxy, None, 0, 'proxy'), [tw])
     return target, hooks, f
